@@ -22,7 +22,31 @@ Decided
   R-XLANG-STAGE   each SensorType member is handled by exactly the MJX stage function (sensor_pos/vel/acc select rows
                   with m.sensor_needstage == mjSTAGE_X) whose stage the C compiler assigns to that sensor type, and
                   no stage function handles a type the compiler assigns elsewhere.
-Not decided: numerical agreement of the pipelines (needs execution), Warp/C++ back ends.
+  R-XLANG-FEED    who feeds whom inside one step.  Mirrored primitives (FEED_PRIMS, one line of reason each, role evidence
+                  verified on both sides): dynamics evaluation forward <-> mj_forward / mj_forwardSkip(skipstage NONE),
+                  activation update _next_activation <-> mj_nextActivation, position integration _integrate_pos <->
+                  mj_integratePos[Ind].  Drivers: step <-> mj_step with opt.integrator fixed to each IntegratorType member
+                  (the C enumerator is the one R-XLANG-MIRROR binds it to), and the integrator itself = the one function
+                  each driver calls for that member and for no other (derived, not tabulated).
+                  MJX side (sa/pydep.py, explicit data flow over the ast: closures, scan carries, tree_map, dispatch
+                  tables, .replace records): the result of primitive P reaches an input of primitive Q.  C side (clang
+                  IR, same-TU callees inlined, other callees summarised by the primitives they can reach in the whole-
+                  engine call graph, branches on opt.integrator decided): a call of P may precede a call of Q.  Every MJX
+                  feed P -> Q needs the C order P before Q: data cannot flow against the call order, so a feed without it
+                  has no counterpart in the C engine (an RK stage state built with the clamping activation update).
+                  Also: for every field the C driver produces by a primitive (`d->act[j] = mj_nextActivation(..)`,
+                  d->qpos handed to mj_integratePos[Ind]) the same field of the state MJX returns depends on the mirrored
+                  primitive.  A side that no longer calls a primitive at all (inlined, renamed) is an ANALYSIS-ERROR.
+  R-XLANG-COVER   the Jacobian axis of the ball-joint limit row (field J of the row built by the MJX function that handles
+                  JointType.BALL limits; the `jac` argument of mj_addConstraint under jnt_type == mjJNT_BALL in C) depends
+                  on the scalar part of the joint quaternion, other than through a 0/1 activity factor.  q and -q are one
+                  rotation and the vector part alone changes sign between them, so an axis that ignores the scalar part is
+                  wrong on half of the cover (C: mju_quat2Vel + mju_normalize3; MJX: renormalising axis*angle, a sign
+                  factor, a where, canonicalising the quaternion first are all accepted).
+Not decided: numerical agreement of the pipelines (needs execution), Warp/C++ back ends.  R-XLANG-FEED follows explicit
+data flow only (no control dependence), compares MJX feeds against C call order (it does not demand that C feeds exist
+in MJX, except for the produced state fields), ignores feeds that exist only if an unknown combinator feeds results back
+(listed in the evidence), C callbacks / plugin hooks (indirect calls) are assumed not to call the primitives.
 """
 from __future__ import annotations
 
@@ -984,6 +1008,1062 @@ def check_stages(res, H, sources, classes, repo):
 
 
 # --------------------------------------------------------------------------------------
+# (e) who feeds whom: state-advancing primitives and the dynamics evaluation inside one step
+
+
+FWD_C = "src/engine/engine_forward.c"
+SUP_C = "src/engine/engine_support.c"
+FWD_PY = "forward"
+
+# Mirrored primitives of one simulation step.  tag: (MJX function in forward.py, C functions, reason, role evidence that is
+# verified on both sides).  Role evidence: ("fields", {...}) = model fields both bodies read; ("enum", Class, MEMBER) = the
+# MJX body spells types.Class.MEMBER and the C body the enumerator that R-XLANG-MIRROR binds it to; ("callees", n) = at
+# least n callee names agree after dropping `mj_` / `_` and case.
+FEED_PRIMS = {
+    "FORWARD": ("forward", ("mj_forward", "mj_forwardSkip"),
+                "full dynamics evaluation of the current (qpos, qvel, act, time): position, velocity, actuation, acceleration "
+                "and constraint stages (mj_forwardSkip counts only when called with skipstage mjSTAGE_NONE)",
+                [("callees", 4)]),
+    "ACTNEXT": ("_next_activation", ("mj_nextActivation",),
+                "the activation update of the integration step: exact filter formula for FILTEREXACT, Euler otherwise, then "
+                "the actrange clamp", [("fields", {"actuator_actrange", "actuator_actlimited"}), ("enum", "DynType", "FILTEREXACT")]),
+    "INTPOS": ("_integrate_pos", ("mj_integratePos", "mj_integratePosInd"),
+               "position integration on the configuration manifold: per joint type, quaternion joints through the quaternion "
+               "integrator", [("enum", "JointType", "BALL"), ("enum", "JointType", "FREE"), ("enum", "JointType", "HINGE")]),
+}
+# The drivers that are compared: (MJX function in forward.py, C function, enum class of types.py they both dispatch on, the
+# option field it is read from, reason).
+FEED_DRIVER = ("step", "mj_step", "IntegratorType", ("opt", "integrator"),
+               "one simulation step: the dynamics evaluation followed by the integrator selected by opt.integrator")
+
+
+def _py_tokens(fn):
+    """(attribute names read, {(Class, MEMBER)} spelled, callee names) of a Python function, nested defs included."""
+    attrs, enums, callees = set(), set(), set()
+    for n in ast.walk(fn):
+        if isinstance(n, ast.Attribute):
+            attrs.add(n.attr)
+            c = chain(n)
+            if c and len(c[1]) >= 1:
+                full = [c[0]] + c[1]
+                if len(full) >= 2 and full[-2][:1].isupper():
+                    enums.add((full[-2], full[-1]))
+        if isinstance(n, ast.Call):
+            if isinstance(n.func, ast.Name):
+                callees.add(n.func.id)
+            elif isinstance(n.func, ast.Attribute):
+                callees.add(n.func.attr)
+    return attrs, enums, callees
+
+
+def _c_tokens(unit, names, depth=3):
+    """(member names read, enumerators spelled, callee names) of C functions `names` and the same-TU functions they call."""
+    from .. import cir
+    members, enums, callees = set(), set(), set()
+    seen, todo = set(), [(n, 0) for n in names]
+    while todo:
+        name, d = todo.pop()
+        if name in seen or name not in unit.funcs:
+            continue
+        seen.add(name)
+        for x in cir.walk(unit.funcs[name]):
+            k = x.get("k")
+            if k == "MemberExpr":
+                members.add(x.get("n"))
+            elif k == "DeclRefExpr" and (x.get("ref") or {}).get("k") == "EnumConstantDecl":
+                enums.add(x["ref"].get("n"))
+            elif cir.is_call(x):
+                c = cir.callee(x)
+                if c:
+                    callees.add(c)
+                    if d < depth and c in unit.funcs and (unit.funcs[c].get("file") or unit.tu) == unit.tu:
+                        todo.append((c, d + 1))
+    return members, enums, callees
+
+
+def _normname(s):
+    s = s.lower()
+    for p in ("mj_", "mju_", "_"):
+        if s.startswith(p):
+            s = s[len(p):]
+    return s.replace("_", "")
+
+
+class CFeed:
+    """May-precede relation between anchor calls of one C driver, with every same-TU callee that is not an anchor inlined
+    and every other callee summarised by the anchors it can reach (whole-engine call graph).  Conditions on
+    `m->opt.integrator` are decided for the given enumerator; every other branch is taken both ways; loops run twice.
+    Also collects the *facts* `d-><field>` is produced by anchor X: `d->f[..] = <expression calling X>` or X called with
+    `d->f` as a non-const pointer argument."""
+
+    def __init__(self, unit, graph, anchors, subject=("opt", "integrator")):
+        from .. import cir
+        self.cir = cir
+        self.unit = unit
+        self.graph = graph
+        self.anchors = anchors          # C function name -> tag
+        self.subject = subject
+        self._frontier = {}
+        self.indirect = 0
+
+    def run(self, fname, enumerator):
+        if fname not in self.unit.funcs:
+            raise AnalysisError(f"{self.unit.tu}: anchor vanished: {fname}")
+        self.spec = enumerator
+        self.seen = set()
+        self.pairs = set()
+        self.events = {}
+        self.facts = {}
+        self.inlined = set()
+        self.blobs = {}
+        self.decided = 0
+        self.direct = set()
+        self.alias = set()
+        self.stack = [fname]
+        self.stmt(self.cir.body(self.unit.funcs[fname]))
+        return self
+
+    def reassigned(self, decl_id):
+        cir = self.cir
+        fn = self.unit.funcs[self.stack[-1]]
+        for n in cir.walk(fn):
+            k = n.get("k")
+            if (k == "BinaryOperator" and n.get("op") == "=") or k == "CompoundAssignOperator" or \
+                    (k == "UnaryOperator" and n.get("op") in ("++", "--", "&")):
+                t = cir.strip(cir.kids(n)[0])
+                if t is not None and t.get("k") == "DeclRefExpr" and (t.get("ref") or {}).get("id") == decl_id:
+                    return True
+        return False
+
+    # -- events
+    def event(self, tag, node, via):
+        for s in self.seen:
+            self.pairs.add((s, tag))
+        self.seen.add(tag)
+        self.events.setdefault(tag, set()).add((via, node.get("line")))
+
+    # -- conditions on the dispatch subject
+    def is_subject(self, n):
+        cir = self.cir
+        n = cir.strip(n)
+        if n is not None and n.get("k") == "DeclRefExpr" and (n.get("ref") or {}).get("id") in self.alias:
+            return True
+        if n is None or n.get("k") != "MemberExpr" or n.get("n") != self.subject[-1]:
+            return False
+        b = cir.strip(cir.kids(n)[0]) if cir.kids(n) else None
+        return b is not None and b.get("k") == "MemberExpr" and b.get("n") == self.subject[0]
+
+    def ceval(self, n):
+        cir = self.cir
+        n = cir.strip(n)
+        if n is None:
+            return None
+        k = n.get("k")
+        if k == "UnaryOperator" and n.get("op") == "!":
+            v = self.ceval(cir.kids(n)[0])
+            return None if v is None else (not v)
+        if k == "BinaryOperator":
+            op = n.get("op")
+            a, b = cir.kids(n)
+            if op in ("&&", "||"):
+                x, y = self.ceval(a), self.ceval(b)
+                if op == "&&":
+                    if x is False or y is False:
+                        return False
+                    return True if (x is True and y is True) else None
+                if x is True or y is True:
+                    return True
+                return False if (x is False and y is False) else None
+            if op in ("==", "!="):
+                for p, q in ((a, b), (b, a)):
+                    qs = cir.strip(q)
+                    if self.is_subject(p) and qs is not None and qs.get("k") == "DeclRefExpr" and \
+                            (qs.get("ref") or {}).get("k") == "EnumConstantDecl":
+                        self.decided += 1
+                        eq = qs["ref"].get("n") == self.spec
+                        return eq if op == "==" else not eq
+        return None
+
+    # -- statements
+    def stmt(self, st):
+        cir = self.cir
+        if st is None:
+            return
+        k = st.get("k")
+        if k == "CompoundStmt":
+            for c in cir.kids(st):
+                self.stmt(c)
+        elif k == "DeclStmt":
+            for d in cir.kids(st):
+                if d is not None and d.get("k") == "VarDecl":
+                    for c in cir.kids(d):
+                        self.expr(c)
+                    init = [c for c in cir.kids(d) if c is not None]
+                    if init and self.is_subject(init[-1]) and d.get("id") and not self.reassigned(d.get("id")):
+                        self.alias.add(d.get("id"))     # `int integrator = m->opt.integrator;`
+        elif k == "IfStmt":
+            from .. import norm
+            pre, cond, then, els = norm._if_parts(st)
+            for x in pre:
+                self.stmt(x)
+            self.expr(cond)
+            v = self.ceval(cond)
+            if v is True:
+                self.stmt(then)
+            elif v is False:
+                self.stmt(els)
+            else:
+                s0 = set(self.seen)
+                self.stmt(then)
+                s1 = self.seen
+                self.seen = set(s0)
+                self.stmt(els)
+                self.seen |= s1
+        elif k == "SwitchStmt":
+            self.switch(st)
+        elif k in ("ForStmt", "WhileStmt", "DoStmt"):
+            kk = list(cir.kids(st))
+            if k == "ForStmt":
+                kk += [None] * 5
+                self.stmt(kk[0])
+                for _ in range(2):
+                    self.expr(kk[2])
+                    self.stmt(kk[4])
+                    self.expr(kk[3])
+            elif k == "WhileStmt":
+                for _ in range(2):
+                    self.expr(kk[0])
+                    self.stmt(kk[-1])
+            else:
+                for _ in range(2):
+                    self.stmt(kk[0])
+                    self.expr(kk[1] if len(kk) > 1 else None)
+        elif k in ("CaseStmt", "DefaultStmt", "LabelStmt", "AttributedStmt"):
+            self.stmt(cir.kids(st)[-1] if cir.kids(st) else None)
+        elif k in ("NullStmt", "BreakStmt", "ContinueStmt", "GotoStmt"):
+            return
+        elif k == "ReturnStmt":
+            for c in cir.kids(st):
+                self.expr(c)
+        else:
+            self.expr(st)
+
+    def switch(self, st):
+        cir = self.cir
+        c = [x for x in cir.kids(st) if x is not None]
+        cond, body = c[0], c[-1]
+        self.expr(cond)
+        groups, labels = [], []
+
+        def add(s):
+            if s is None:
+                return
+            if s.get("k") == "CaseStmt":
+                labels.append(cir.text(cir.kids(s)[0]))
+                add(cir.kids(s)[-1])
+            elif s.get("k") == "DefaultStmt":
+                labels.append("<default>")
+                add(cir.kids(s)[-1])
+            else:
+                if labels or not groups:
+                    groups.append((list(labels), []))
+                    labels.clear()
+                groups[-1][1].append(s)
+        for s in (cir.kids(body) if body.get("k") == "CompoundStmt" else [body]):
+            add(s)
+        start = None
+        if self.is_subject(cond) and self.spec is not None:
+            self.decided += 1
+            for i, (labs, _) in enumerate(groups):
+                if self.spec in labs:
+                    start = i
+            if start is None:
+                for i, (labs, _) in enumerate(groups):
+                    if "<default>" in labs:
+                        start = i
+            if start is None:
+                return
+            for labs, stmts in groups[start:]:
+                for s in stmts:
+                    if s.get("k") == "BreakStmt":
+                        return
+                    self.stmt(s)
+            return
+        s0 = set(self.seen)
+        result = set(s0)
+        carry = None
+        for labs, stmts in groups:
+            self.seen = set(s0) | (carry or set())
+            broke = False
+            for s in stmts:
+                if s.get("k") == "BreakStmt":
+                    broke = True
+                    break
+                self.stmt(s)
+            if broke:
+                result |= self.seen
+                carry = None
+            else:
+                carry = set(self.seen)
+        self.seen = result | (carry or set())
+
+    # -- expressions
+    def data_field(self, n):
+        """`f` if n is `<mjData pointer>->f` (decayed / offset / indexed forms included), else None."""
+        cir = self.cir
+        n = cir.strip(n)
+        while n is not None and n.get("k") in ("ArraySubscriptExpr", "BinaryOperator", "UnaryOperator"):
+            if n.get("k") == "BinaryOperator" and n.get("op") not in ("+", "-"):
+                return None
+            if n.get("k") == "UnaryOperator" and n.get("op") not in ("&", "*"):
+                return None
+            n = cir.strip(cir.kids(n)[0])
+        if n is None or n.get("k") != "MemberExpr" or not n.get("arrow"):
+            return None
+        b = cir.strip(cir.kids(n)[0]) if cir.kids(n) else None
+        if b is not None and "mjData" in (b.get("t") or ""):
+            return n.get("n")
+        return None
+
+    def expr(self, n):
+        cir = self.cir
+        if n is None:
+            return
+        for c in cir.kids(n):
+            self.expr(c)
+        k = n.get("k")
+        if cir.is_call(n):
+            self.call(n)
+        elif k == "BinaryOperator" and n.get("op") == "=":
+            lhs, rhs = cir.kids(n)
+            f = self.data_field(lhs)
+            if f:
+                for c in cir.calls(rhs):
+                    tag = self.anchors.get(cir.callee(c))
+                    if tag:
+                        self.facts.setdefault((f, tag), n.get("line"))
+
+    def variant(self, name, n):
+        """mj_forwardSkip is the full evaluation only with skipstage mjSTAGE_NONE (an unknown skipstage may be)."""
+        cir = self.cir
+        fn = self.unit.funcs.get(name) or self.unit.protos.get(name)
+        if fn is None:
+            return True
+        ps = [p.get("n") for p in cir.params(fn)]
+        if "skipstage" not in ps:
+            return True
+        a = cir.args(n)
+        i = ps.index("skipstage")
+        if i >= len(a):
+            return True
+        x = cir.strip(a[i])
+        if x is not None and x.get("k") == "DeclRefExpr" and (x.get("ref") or {}).get("k") == "EnumConstantDecl":
+            return x["ref"].get("n") == "mjSTAGE_NONE"
+        if x is not None and x.get("k") == "IntegerLiteral":
+            return str(x.get("v")) == "0"
+        return True
+
+    def call(self, n):
+        cir = self.cir
+        name = cir.callee(n)
+        if name is None:
+            self.indirect += 1
+            return
+        tag = self.anchors.get(name)
+        if tag:
+            if not self.variant(name, n):
+                self.events.setdefault(tag + "~partial", set()).add((self.stack[-1], n.get("line")))
+                return
+            # output arguments: d->f handed to a non-const pointer parameter
+            ref = cir.strip(cir.kids(n)[0])
+            sig = ((ref or {}).get("ref") or {}).get("t") or ""
+            ptypes = [t.strip() for t in sig[sig.find("(") + 1: sig.rfind(")")].split(",")] if "(" in sig else []
+            for a, t in zip(cir.args(n), ptypes):
+                if t.endswith("*") and not t.startswith("const "):
+                    f = self.data_field(a)
+                    if f:
+                        self.facts.setdefault((f, tag), n.get("line"))
+            self.event(tag, n, self.stack[-1])
+            return
+        fn = self.unit.funcs.get(name)
+        if fn is not None and (fn.get("file") or self.unit.tu) == self.unit.tu and not fn.get("variadic"):
+            if name in self.stack or len(self.stack) > 12:
+                return
+            self.inlined.add(name)
+            if len(self.stack) == 1:
+                self.direct.add(name)
+            self.stack.append(name)
+            try:
+                self.stmt(cir.body(fn))
+            finally:
+                self.stack.pop()
+            return
+        tags = self.frontier(name)
+        if tags:
+            self.blobs[name] = sorted(tags)
+            for _ in range(2):
+                for t in sorted(tags):
+                    self.event(t, n, name)
+
+    def frontier(self, name):
+        """Anchor tags a callee outside the inlined TU can reach without passing through another anchor."""
+        if name in self._frontier:
+            return self._frontier[name]
+        g = self.graph
+        key = g.resolve(self.unit.tu, name)
+        out = set()
+        if key is not None:
+            seen, todo = set(), [key]
+            while todo:
+                k = todo.pop()
+                if k in seen:
+                    continue
+                seen.add(k)
+                for c in g.callees(k):
+                    if c[1] in self.anchors:
+                        out.add(self.anchors[c[1]])
+                    else:
+                        todo.append(c)
+        self._frontier[name] = out
+        return out
+
+
+def _feed_roles(res, sources, classes, units, rule):
+    """Verifies the role evidence of FEED_PRIMS on both sides; returns ({(module, function): tag}, {C function: tag})."""
+    fw = sources.get(FWD_PY + ".py")
+    if fw is None:
+        raise AnalysisError(f"anchor vanished: {MJX}/{FWD_PY}.py")
+    pyf = functions(fw)
+    rel = f"{MJX}/{FWD_PY}.py"
+    py_anchors, c_anchors = {}, {}
+    for tag, (pyname, cnames, why, evidence) in FEED_PRIMS.items():
+        if pyname not in pyf:
+            raise AnalysisError(f"{rel}: anchor vanished: {pyname} (mirror of {'/'.join(cnames)}: {why})")
+        unit = next((u for u in units if all(c in u.funcs for c in cnames)), None)
+        if unit is None:
+            raise AnalysisError(f"anchor vanished: {'/'.join(cnames)} (mirror of {pyname}: {why})")
+        pa, pe, pc = _py_tokens(pyf[pyname])
+        cm, ce, cc = _c_tokens(unit, cnames)
+        for ev in evidence:
+            if ev[0] == "fields":
+                miss = [f for f in sorted(ev[1]) if f not in pa or f not in cm]
+                if miss:
+                    raise AnalysisError(f"{rel}: {pyname} / {unit.tu}: {cnames[0]} no longer both read {miss}: the pair "
+                                        f"({why}) cannot be confirmed")
+            elif ev[0] == "enum":
+                mem = (classes.get(ev[1]) or {}).get("members", {}).get(ev[2])
+                if mem is None:
+                    raise AnalysisError(f"{MJX}/types.py: anchor vanished: {ev[1]}.{ev[2]}")
+                if (ev[1], ev[2]) not in pe or mem[1] not in ce:
+                    raise AnalysisError(f"{rel}: {pyname} / {unit.tu}: {cnames[0]} no longer both handle {ev[1]}.{ev[2]} / "
+                                        f"{mem[1]}: the pair ({why}) cannot be confirmed")
+            elif ev[0] == "callees":
+                common = {_normname(x) for x in pc} & {_normname(x) for x in cc}
+                if len(common) < ev[1]:
+                    raise AnalysisError(f"{rel}: {pyname} / {unit.tu}: {cnames[0]} share only the stages {sorted(common)}: "
+                                        f"the pair ({why}) cannot be confirmed")
+        res.ok(rule, f"pair:{pyname}<->{cnames[0]}", {"reason": why, "c_unit": unit.tu})
+        py_anchors[(FWD_PY, pyname)] = tag
+        for c in cnames:
+            c_anchors[c] = tag
+    return py_anchors, c_anchors
+
+
+def _nonin(tags):
+    return {t[0] for t in tags if t and t[0] != "in" and t[0] != "enum"}
+
+
+def _mjx_feed(interp, pydep, fname, eclass, subject, member, rel):
+    """Runs MJX function `fname`(m, d) with m.<subject> fixed to eclass.member; returns the direct feeds between anchors."""
+    m = pydep.R(pydep.D(frozenset({("in", "m")})), ((subject[0], pydep.R(
+        pydep.D(frozenset({("in", "m", subject[0])})), ((subject[1], pydep.K("enum", (eclass, member))),))),))
+    d = pydep.D(frozenset({("in", "d")}))
+    ret = interp.run(FWD_PY, fname, [m, d])
+    if interp.undecided:
+        raise AnalysisError(f"{rel}:{interp.undecided[0][1]}: the dispatch of {fname} on {eclass} is not decidable for "
+                            f"{eclass}.{member} (a test or an opaque call receives the member)")
+    flows, weak = {}, set()
+    for ev in interp.events:
+        vals = list(ev["args"]) + list(ev["kwargs"].values()) + ([ev["splat"]] if ev["splat"] is not None else [])
+        srcs, fields = set(), {}
+        for v in vals:
+            srcs |= _nonin(pydep.flatten(v))
+            if isinstance(v, pydep.R):
+                for fname_, fv in v.fields:
+                    for t in _nonin(pydep.flatten(fv)):
+                        fields.setdefault(t, set()).add(fname_)
+        for p in srcs:
+            if ev["weak"]:
+                weak.add((p, ev["tag"]))
+                continue
+            owner, line, _omod = interp.owner_of(ev)
+            flows.setdefault((p, ev["tag"]), []).append((owner, line, sorted(fields.get(p, ()))))
+    weak -= set(flows)
+    direct = {name for caller, mod, name, _n in interp.entered if caller == fname and mod == FWD_PY and name != fname}
+    return {"ret": ret, "flows": flows, "weak": weak, "direct": direct, "events": len(interp.events),
+            "tags": {ev["tag"] for ev in interp.events}}
+
+
+def check_feed(res, H, sources, classes, mir, repo):
+    rule = "R-XLANG-FEED"
+    res.rule(rule, "inside one step and inside each integrator: a result of a mirrored primitive (activation update, position "
+             "integration, dynamics evaluation) feeds another one in MJX only if the C engine can run them in that order; "
+             "the act / qpos of the returned state come from the primitives that produce d->act / d->qpos in C", floor=28)
+    from .. import callgraph, engine, pydep
+    pyname, cname, eclass, subject, why = FEED_DRIVER
+    uf, us = engine.unit(FWD_C, repo), engine.unit(SUP_C, repo)
+    py_anchors, c_anchors = _feed_roles(res, sources, classes, (uf, us), rule)
+    ec = classes.get(eclass)
+    if not ec or not ec["members"]:
+        raise AnalysisError(f"{MJX}/types.py: anchor vanished: {eclass}")
+    if cname not in uf.funcs:
+        raise AnalysisError(f"{FWD_C}: anchor vanished: {cname}")
+    cenum = sorted({e for e, _, _ in ec["members"].values()})
+    if len(cenum) != 1 or H.enumerators(cenum[0]) is None:
+        raise AnalysisError(f"{MJX}/types.py: {eclass} does not mirror one C enum")
+    graph = callgraph.build(structs=())
+    mods = {k[:-3]: v for k, v in sources.items()}
+    interp = pydep.Interp(mods, {FWD_PY}, py_anchors, watch_enum=eclass, label=f"{MJX}/")
+    pyfun = {tag: FEED_PRIMS[tag][0] for tag in FEED_PRIMS}
+    rel = f"{MJX}/{FWD_PY}.py"
+    pyfuncs = functions(sources[FWD_PY + ".py"])
+    bad, summary, cannot = {}, {}, []
+
+    def c_feed(fn, enumerator):
+        cf = CFeed(uf, graph, c_anchors, subject).run(fn, enumerator)
+        need = {("act", "ACTNEXT"), ("qpos", "INTPOS")}
+        if cf.events and not need <= set(cf.facts):
+            raise AnalysisError(f"{FWD_C}: {fn} with {enumerator}: d->act is no longer stored from "
+                                f"{FEED_PRIMS['ACTNEXT'][1][0]} / d->qpos no longer handed to {FEED_PRIMS['INTPOS'][1][0]} "
+                                f"(found {sorted(cf.facts)}): the premise of {rule} is gone")
+        return cf
+
+    def compare(member, level, pfn, cfn, mj, cf):
+        for (p, q), sites in sorted(mj["flows"].items()):
+            key = f"{eclass}.{member}:{level}:{pyfun[p]}->{pyfun[q]}"
+            if (p, q) in cf.pairs:
+                res.ok(rule, key, {"mjx": f"{rel}:{sites[0][1]} ({sites[0][0]})", "c": f"{FWD_C}: {cfn}: "
+                                   f"{sorted(cf.events.get(p, ()))[:2]} before {sorted(cf.events.get(q, ()))[:2]}"})
+                continue
+            gone = [t for t in (p, q) if t not in cf.events]
+            if gone:
+                cannot.append(f"{FWD_C}: {cfn} never calls {' / '.join('/'.join(FEED_PRIMS[t][1]) for t in gone)} "
+                              f"(inlined or renamed?) while {pfn} feeds {pyfun[p]} into {pyfun[q]} ({rel}:{sites[0][1]}): "
+                              f"the two sides cannot be compared")
+                continue
+            owner, line, flds = sites[0]
+            ckey = f"{owner}:{pyfun[p]}->{pyfun[q]}"
+            b = bad.setdefault(ckey, {"line": line, "members": [], "p": p, "q": q, "fields": flds, "owner": owner, "cfn": cfn})
+            if member not in b["members"]:
+                b["members"].append(member)
+        for (field, tag), cline in sorted(cf.facts.items()):
+            key = f"{eclass}.{member}:{level}:{field}<-{pyfun[tag]}"
+            got = _nonin(pydep.flatten(pydep.project(mj["ret"], field)))
+            if tag in got:
+                res.ok(rule, key, {"c": f"{FWD_C}:{cline}", "mjx_field_depends_on": sorted(got)})
+            elif tag not in mj["tags"]:
+                cannot.append(f"{rel}: {pfn} with {eclass}.{member} never calls {pyfun[tag]} (inlined or renamed?) while "
+                              f"{cfn} produces d->{field} with {FEED_PRIMS[tag][1][0]} ({FWD_C}:{cline}): the two sides "
+                              f"cannot be compared")
+            else:
+                ckey = f"{pfn}:{field}<-{pyfun[tag]}"
+                b = bad.setdefault(ckey, {"line": pyfuncs[pfn].lineno if pfn in pyfuncs else 0, "members": [], "field": field,
+                                          "tag": tag, "cline": cline, "got": sorted(got), "pfn": pfn, "cfn": cfn})
+                if member not in b["members"]:
+                    b["members"].append(member)
+        return {"mjx": pfn, "c": cfn, "c_may_precede": sorted(f"{a}<{b}" for a, b in cf.pairs),
+                "c_inlined": sorted(cf.inlined), "c_summarised_callees": cf.blobs,
+                "c_partial_evaluations": {k: sorted(v) for k, v in cf.events.items() if k.endswith("~partial")},
+                "mjx_feeds": sorted(f"{a}->{b}" for a, b in mj["flows"]),
+                "mjx_possible_feeds_through_opaque_combinators_not_decided": sorted(f"{a}->{b}" for a, b in mj["weak"]),
+                "c_indirect_calls_ignored": cf.indirect}
+
+    # level 1: the step driver, per enum member
+    step_mj, step_cf = {}, {}
+    for member, (_e, cenumerator, _line) in sorted(ec["members"].items()):
+        step_mj[member] = _mjx_feed(interp, pydep, pyname, eclass, subject, member, rel)
+        step_cf[member] = c_feed(cname, cenumerator)
+        if not step_cf[member].decided:
+            raise AnalysisError(f"{FWD_C}: {cname} no longer dispatches on m->{subject[0]}.{subject[1]}")
+    c_direct = {}
+    for en in H.enumerators(cenum[0]):
+        mirrored = next((m_ for m_, (_e, c_, _l) in ec["members"].items() if c_ == en), None)
+        cf = step_cf[mirrored] if mirrored else CFeed(uf, graph, c_anchors, subject).run(cname, en)
+        c_direct[en] = set(cf.direct)
+    c_common = set.intersection(*c_direct.values()) if c_direct else set()
+    live = [m_ for m_ in step_mj if step_mj[m_]["events"]]
+    p_common = set.intersection(*[step_mj[m_]["direct"] for m_ in live]) if live else set()
+    for member, (_e, cenumerator, _line) in sorted(ec["members"].items()):
+        mj, cf = step_mj[member], step_cf[member]
+        if not mj["events"]:
+            summary[member] = {"step": "rejected by MJX or no primitive reached"}     # e.g. a member step() raises on
+            continue
+        summary[member] = {"step": compare(member, pyname, pyname, cname, mj, cf)}
+        # level 2: the integrator = what the driver calls only for this member, on both sides
+        pint = sorted(mj["direct"] - p_common)
+        cint = sorted(c_direct[cenumerator] - c_common)
+        if len(pint) != 1 or len(cint) != 1:
+            summary[member]["integrator"] = {"not_decided": f"no unique member-specific callee (MJX {pint}, C {cint})"}
+            continue
+        imj = _mjx_feed(interp, pydep, pint[0], eclass, subject, member, rel)
+        icf = c_feed(cint[0], cenumerator)
+        res.ok(rule, f"pair:{eclass}.{member}:{pint[0]}<->{cint[0]}",
+               {"derived": f"the only function {pyname} / {cname} call for this member and for no other"})
+        summary[member]["integrator"] = compare(member, pint[0], pint[0], cint[0], imj, icf)
+    for ckey, b in sorted(bad.items()):
+        mem = ", ".join(f"{eclass}.{x}" for x in b["members"])
+        if "p" in b:
+            p, q = b["p"], b["q"]
+            fl = f" (field{'s' if len(b['fields']) > 1 else ''} {', '.join(b['fields'])} of the state passed in)" if b["fields"] else ""
+            res.bad(rule, ckey, rel, b["line"],
+                    f"with {mem}: in {b['owner']} the result of {pyfun[p]} feeds {pyfun[q]}{fl}; in the C engine "
+                    f"({b['cfn']}, {FWD_C}) no call of {'/'.join(FEED_PRIMS[p][1])} can precede a call of "
+                    f"{'/'.join(FEED_PRIMS[q][1])} ({FEED_PRIMS[p][2]}), so the two engines evaluate {pyfun[q]} at "
+                    f"different states")
+        else:
+            res.bad(rule, ckey, rel, b["line"],
+                    f"with {mem}: the {b['field']} of the state returned by {b['pfn']} does not come from {pyfun[b['tag']]} "
+                    f"(it depends on {b['got'] or 'inputs only'}); the C engine ({b['cfn']}) produces d->{b['field']} with "
+                    f"{FEED_PRIMS[b['tag']][1][0]} ({FWD_C}:{b['cline']}): {FEED_PRIMS[b['tag']][2]}")
+    if cannot and not bad:
+        # a definite mismatch is reported as such; without one, a side that lost a primitive cannot be judged
+        raise AnalysisError(cannot[0] + (f" (+{len(cannot) - 1} more)" if len(cannot) > 1 else ""))
+    for om in sorted(interp.opaque_modules):
+        seen, todo = set(), [om]
+        while todo:
+            x = todo.pop()
+            if x in seen or x not in mods:
+                continue
+            seen.add(x)
+            for n in ast.walk(mods[x]):
+                if isinstance(n, ast.ImportFrom) and n.module:
+                    for a in n.names:
+                        for cand in (f"{n.module}.{a.name}", n.module):
+                            if cand.startswith("mujoco.mjx._src."):
+                                todo.append(cand[len("mujoco.mjx._src."):].split(".")[0])
+                elif isinstance(n, ast.Import):
+                    for a in n.names:
+                        if a.name.startswith("mujoco.mjx._src."):
+                            todo.append(a.name[len("mujoco.mjx._src."):].split(".")[0])
+        if FWD_PY in seen:
+            raise AnalysisError(f"{MJX}/{om}.py is called from {FWD_PY}.py as an opaque module but imports {FWD_PY}.py: the "
+                                f"primitives could be reached behind the analysis")
+    res.extra["feed"] = {"driver": {"mjx": pyname, "c": cname, "reason": why}, "per_member": summary,
+                         "pairs": {FEED_PRIMS[t][0]: {"c": list(FEED_PRIMS[t][1]), "reason": FEED_PRIMS[t][2]} for t in FEED_PRIMS},
+                         "opaque_mjx_modules": sorted(interp.opaque_modules), "not_comparable": cannot}
+
+
+# --------------------------------------------------------------------------------------
+# (f) the ball-joint limit row and the double cover of rotations by quaternions
+
+
+CC_C = "src/engine/engine_core_constraint.c"
+CON_PY = "constraint"
+# Why the scalar part: q and -q are the same rotation, and the vector part alone changes sign between them.  The limit row
+# of C (mju_quat2Vel wraps the angle with the sign of the scalar part, mju_normalize3 then yields a non-negative angle and
+# the axis that goes with it) is the same for q and -q.  A Jacobian axis computed from the vector part only flips with it,
+# so it is wrong on one half of the cover, whatever function of the vector part it is.
+COVER_WHY = ("q and -q are one rotation and only the scalar part tells which of the two the vector part belongs to: a row axis "
+             "that does not depend on it changes sign between q and -q, the C row does not")
+
+
+def c_ball_premise(repo, H):
+    """C side: the function that instantiates joint-limit rows, its mj_addConstraint calls guarded by jnt_type == mjJNT_BALL,
+    and what their Jacobian argument depends on (flow-insensitive closure over the statements that BALL can reach, static
+    helpers inlined; a callee may write every non-const pointer argument from all its arguments)."""
+    from .. import cir, engine, modref, norm
+    u = engine.unit(CC_C, repo)
+    joint = set(H.enumerators("mjtJoint") or ())
+    if "mjJNT_BALL" not in joint:
+        raise AnalysisError("anchor vanished: mjtJoint.mjJNT_BALL")
+    add = u.funcs.get("mj_addConstraint") or u.protos.get("mj_addConstraint")
+    if add is None:
+        raise AnalysisError(f"{CC_C}: anchor vanished: mj_addConstraint")
+    pnames = [p_.get("n") for p_ in cir.params(add)]
+    if "jac" not in pnames:
+        raise AnalysisError(f"{CC_C}: anchor vanished: parameter `jac` of mj_addConstraint")
+    jidx = pnames.index("jac")
+    cands = []
+    for name, fn in sorted(u.funcs.items()):
+        if (fn.get("file") or u.tu) != u.tu or name == "mj_addConstraint":
+            continue
+        if any(x.get("k") == "DeclRefExpr" and (x.get("ref") or {}).get("n") == "mjJNT_BALL" for x in cir.walk(fn)) and \
+                any(True for _ in cir.calls(fn, "mj_addConstraint")):
+            cands.append(name)
+    found = []
+    for name in cands:
+        view = norm.canon(u, name, exclude=("mj_addConstraint",))
+        body = cir.body(view)
+
+        def eqset(c):
+            """enumerators E of `jnt_type == E` or of an `||` tree of such tests; None for anything else"""
+            c = cir.strip(c)
+            if c is None or c.get("k") != "BinaryOperator":
+                return None
+            if c.get("op") == "||":
+                parts = [eqset(x) for x in cir.kids(c)]
+                return None if any(p_ is None for p_ in parts) else set().union(*parts)
+            if c.get("op") == "==":
+                a, b = (cir.text(x) for x in cir.kids(c))
+                for lab, other in ((a, b), (b, a)):
+                    if lab in joint and "jnt_type" in other:
+                        return {lab}
+            return None
+
+        def cases(n, body=body):
+            live, constrained = set(joint), False
+            for g in norm.guards(body, n) or []:
+                es = eqset(g[0])
+                if es is None:
+                    if g[0].get("k") == "SwitchLabels":
+                        sub, con = norm.enum_cases([g], joint, subject=lambda t: "jnt_type" in t)
+                        if con:
+                            live &= sub
+                            constrained = True
+                    continue
+                constrained = True
+                live = (live & es) if g[1] else (live - es)
+            return live, constrained
+        calls = [c for c in cir.calls(body, "mj_addConstraint") if cases(c) == ({"mjJNT_BALL"}, True)]
+        if calls:
+            found.append((name, view, body, calls, cases))
+    if len(found) != 1:
+        raise AnalysisError(f"{CC_C}: expected one function adding constraint rows under jnt_type == mjJNT_BALL, found "
+                            f"{[f[0] for f in found]}")
+    name, view, body, calls, cases = found[0]
+
+    def is_data(n, field=None):
+        n = cir.strip(n)
+        if n is None or n.get("k") != "MemberExpr" or not n.get("arrow"):
+            return False
+        b = cir.strip(cir.kids(n)[0]) if cir.kids(n) else None
+        return b is not None and "mjData" in (b.get("t") or "") and (field is None or n.get("n") == field)
+
+    def root(n):
+        n = cir.strip(n)
+        while n is not None:
+            k = n.get("k")
+            if k == "DeclRefExpr":
+                r = n.get("ref") or {}
+                return r.get("id") if r.get("k") in ("VarDecl", "ParmVarDecl") else None
+            if k == "MemberExpr" and n.get("arrow"):
+                return ("field", n.get("n"))
+            if k in ("MemberExpr", "ArraySubscriptExpr") or (k == "UnaryOperator" and n.get("op") in ("*", "&")) or \
+                    (k == "BinaryOperator" and n.get("op") in ("+", "-")):
+                n = cir.strip(cir.kids(n)[0])
+                continue
+            return None
+        return None
+
+    deps = {}
+    qalias = set()      # locals that point into d->qpos at the joint's address: `const mjtNum* q = d->qpos + adr;`
+
+    def qpos_base(b):
+        """True if pointer expression b is d->qpos, d->qpos + <address>, or a local alias of one"""
+        b = cir.strip(b)
+        if b is None:
+            return False
+        if b.get("k") == "DeclRefExpr":
+            return (b.get("ref") or {}).get("id") in qalias
+        if b.get("k") == "BinaryOperator" and b.get("op") == "+":
+            return qpos_base(cir.kids(b)[0])
+        if b.get("k") == "UnaryOperator" and b.get("op") == "&":
+            x = cir.strip(cir.kids(b)[0])
+            return x is not None and x.get("k") == "ArraySubscriptExpr" and qpos_base(cir.kids(x)[0])
+        return is_data(b, "qpos")
+
+    def offset(i, based):
+        """offset of an index from the joint's address: with a based pointer the literal itself, else `adr + k`"""
+        i = cir.strip(i)
+        if i is None:
+            return "?"
+        if i.get("k") == "IntegerLiteral":
+            return int(str(i.get("v")), 0) if based else "?"
+        if i.get("k") == "BinaryOperator" and i.get("op") == "+":
+            lit = [y for y in (cir.strip(z) for z in cir.kids(i)) if y is not None and y.get("k") == "IntegerLiteral"]
+            return int(str(lit[0].get("v")), 0) if len(lit) == 1 else "?"
+        if i.get("k") == "BinaryOperator":
+            return "?"
+        return "?" if based else 0
+
+    def edeps(e):
+        out = set()
+        sub_bases = set()
+        for x in cir.walk(e):
+            k = x.get("k")
+            if k == "ArraySubscriptExpr" and qpos_base(cir.kids(x)[0]):
+                b = cir.strip(cir.kids(x)[0])
+                out.add(("qpos", offset(cir.kids(x)[1], based=not is_data(b, "qpos"))))
+                for y in cir.walk(b):
+                    sub_bases.add(id(y))
+        for x in cir.walk(e):
+            k = x.get("k")
+            if k == "DeclRefExpr" and (x.get("ref") or {}).get("k") in ("VarDecl", "ParmVarDecl"):
+                out |= deps.get(x["ref"].get("id"), set())
+                if x["ref"].get("id") in qalias and id(x) not in sub_bases:
+                    out.add(("qpos", "?"))
+            elif k == "MemberExpr" and x.get("arrow") and is_data(x):
+                if x.get("n") != "qpos":
+                    out |= deps.get(("field", x.get("n")), set())
+                elif id(x) not in sub_bases:
+                    out.add(("qpos", "?"))      # the pointer itself handed on: any entry
+        return out
+
+    region = []
+    for n in cir.walk(body):
+        k = n.get("k")
+        if k == "VarDecl" and n.get("init") or (k == "BinaryOperator" and n.get("op") == "=") or \
+                k == "CompoundAssignOperator" or cir.is_call(n):
+            if "mjJNT_BALL" in cases(n)[0]:
+                region.append(n)
+    for n in region:
+        if n.get("k") == "VarDecl":
+            init = [c for c in cir.kids(n) if c is not None]
+            if init and "*" in (n.get("t") or "") and qpos_base(init[-1]) and n.get("id"):
+                qalias.add(n.get("id"))
+    for _ in range(12):
+        changed = False
+
+        def add(key, tags):
+            nonlocal changed
+            if key is None or not tags:
+                return
+            cur = deps.setdefault(key, set())
+            if not tags <= cur:
+                cur |= tags
+                changed = True
+        for n in region:
+            k = n.get("k")
+            if k == "VarDecl":
+                init = [c for c in cir.kids(n) if c is not None]
+                add(n.get("id"), edeps(init[-1]))
+            elif cir.is_call(n):
+                ref = cir.strip(cir.kids(n)[0])
+                sig = ((ref or {}).get("ref") or {}).get("t") or ""
+                ptypes = modref._param_types(sig)
+                args = cir.args(n)
+                alld = set()
+                for a in args:
+                    alld |= edeps(a)
+                for a, t in zip(args, ptypes):
+                    if t.rstrip().endswith("*") and not t.lstrip().startswith("const "):
+                        add(root(a), alld)
+            else:
+                lhs, rhs = cir.kids(n)[0], cir.kids(n)[1]
+                add(root(lhs), edeps(rhs) | (edeps(lhs) if k == "CompoundAssignOperator" else set()))
+        if not changed:
+            break
+    jac = []
+    for c in calls:
+        a = cir.args(c)
+        jac.append((c.get("line"), edeps(a[jidx]) if jidx < len(a) else set()))
+    return {"function": name, "line": view.get("line"), "calls": jac, "inlined": view.get("inlined", [])}
+
+
+def _four_consecutive(sl):
+    """The index expression selects 4 consecutive entries from a start address: `arange(4) + a`, `a + arange(4)`, `a:a+4`."""
+    def is_arange4(x):
+        return isinstance(x, ast.Call) and ((isinstance(x.func, ast.Attribute) and x.func.attr == "arange") or
+                                            (isinstance(x.func, ast.Name) and x.func.id == "arange")) \
+            and len(x.args) == 1 and not x.keywords and isinstance(x.args[0], ast.Constant) and x.args[0].value == 4
+    if isinstance(sl, ast.BinOp) and isinstance(sl.op, ast.Add) and (is_arange4(sl.left) or is_arange4(sl.right)):
+        return True
+    if isinstance(sl, ast.Slice) and sl.lower is not None and sl.step is None and isinstance(sl.upper, ast.BinOp) and \
+            isinstance(sl.upper.op, ast.Add):
+        for a, b in ((sl.upper.left, sl.upper.right), (sl.upper.right, sl.upper.left)):
+            if isinstance(b, ast.Constant) and b.value == 4 and ast.dump(a) == ast.dump(sl.lower):
+                return True
+    return False
+
+
+def check_cover(res, H, sources, classes, repo):
+    rule = "R-XLANG-COVER"
+    res.rule(rule, "the Jacobian axis of the ball-joint limit row depends on the scalar part of the joint quaternion other "
+             "than through a 0/1 activity factor, in the C engine and in MJX", floor=2)
+    from .. import pydep
+    prem = c_ball_premise(repo, H)
+    for line, tags in prem["calls"]:
+        offs = {o for f, o in tags if f == "qpos"}
+        if not (0 in offs or "?" in offs):
+            raise AnalysisError(f"{CC_C}:{line}: the Jacobian handed to mj_addConstraint under jnt_type == mjJNT_BALL in "
+                                f"{prem['function']} does not depend on d->qpos[jnt_qposadr] (found offsets {sorted(map(str, offs))}): "
+                                f"the premise of {rule} is gone")
+    res.ok(rule, f"c:{prem['function']}:jac<-qpos.w", {"where": f"{CC_C}:{prem['calls'][0][0]}", "inlined": prem["inlined"],
+                                                       "depends_on_qpos_offsets": sorted(map(str, {o for _l, t in prem["calls"]
+                                                                                                  for f, o in t if f == "qpos"}))})
+    con = sources.get(CON_PY + ".py")
+    if con is None:
+        raise AnalysisError(f"anchor vanished: {MJX}/{CON_PY}.py")
+    rel = f"{MJX}/{CON_PY}.py"
+    mem = (classes.get("JointType") or {}).get("members", {}).get("BALL")
+    if mem is None or mem[1] != "mjJNT_BALL":
+        raise AnalysisError(f"{MJX}/types.py: anchor vanished: JointType.BALL = mujoco.mjtJoint.mjJNT_BALL")
+    cands = []
+    for name, fn in functions(con).items():
+        attrs, enums, _callees = _py_tokens(fn)
+        if ("JointType", "BALL") in enums and "jnt_range" in attrs:
+            cands.append(name)
+    if len(cands) != 1:
+        raise AnalysisError(f"{rel}: expected one function building limit rows for JointType.BALL (reads jnt_range), found {cands}")
+    fname = cands[0]
+    state = {"reads": 0, "other": []}
+
+    def hook(interp, node, base, idx, fr):
+        if not isinstance(base, pydep.D) or not any(t[:2] == ("in", "d") and t[-1] == "qpos" for t in base.tags):
+            return None
+        if _four_consecutive(node.slice):
+            state["reads"] += 1
+            extra = pydep.flatten(idx) | frozenset(t for t in base.tags if t[-1] != "qpos")
+            return pydep.V(frozenset({("quat", "w")}) | extra, frozenset({("quat", "xyz")}) | extra)
+        state["other"].append(node.lineno)
+        return None
+
+    def xhook(interp, name, args, kwargs, node, fr):
+        # jax.lax.dynamic_slice(d.qpos, (adr,), (4,)) / dynamic_slice_in_dim(d.qpos, adr, 4)
+        last = name.rsplit(".", 1)[-1]
+        if last not in ("dynamic_slice", "dynamic_slice_in_dim") or len(args) != 3 or not isinstance(args[0], pydep.D) or \
+                not any(t[:2] == ("in", "d") and t[-1] == "qpos" for t in args[0].tags):
+            return None
+        size = args[2]
+        if last == "dynamic_slice":
+            size = size.items[0] if isinstance(size, pydep.T) and len(size.items) == 1 else None
+        if isinstance(size, pydep.K) and size.kind == "int" and size.v == 4:
+            state["reads"] += 1
+            extra = pydep.flatten(args[1]) | frozenset(t for t in args[0].tags if t[-1] != "qpos")
+            return pydep.V(frozenset({("quat", "w")}) | extra, frozenset({("quat", "xyz")}) | extra)
+        state["other"].append(node.lineno)
+        return None
+    mods = {k[:-3]: v for k, v in sources.items()}
+    interp = pydep.Interp(mods, {CON_PY, "math"}, {}, drop_masks=True, subscript_hook=hook, external_hook=xhook,
+                          label=f"{MJX}/")
+    ret = interp.run(CON_PY, fname, [pydep.D(frozenset({("in", "m")})), pydep.D(frozenset({("in", "d")}))])
+    line = functions(con)[fname].lineno
+    if not state["reads"]:
+        raise AnalysisError(f"{rel}:{line}: {fname}: no read of the joint quaternion as four consecutive qpos entries "
+                            f"(`d.qpos[arange(4) + adr]` / `d.qpos[adr:adr + 4]`) is recognised (other qpos reads at lines "
+                            f"{state['other']})")
+    if not isinstance(ret, pydep.R) or ret.get("J") is None:
+        raise AnalysisError(f"{rel}:{line}: {fname} does not return a row record with a field J")
+    J = ret.get("J")
+    direct = pydep.ungated(J)
+    allt = pydep.flatten(J)
+    whole = any(t[:2] == ("in", "d") and t[-1] == "qpos" for t in direct)
+    has_w = ("quat", "w") in direct or whole
+    has_xyz = ("quat", "xyz") in direct or whole
+    key = f"{fname}:J<-qpos.w"
+    if has_w:
+        res.ok(rule, key, {"where": f"{rel}:{line}", "c": f"{CC_C}: {prem['function']}"})
+    elif not has_xyz:
+        raise AnalysisError(f"{rel}:{line}: the J of the row {fname} returns does not depend on the joint quaternion at all: "
+                            f"shape not recognised")
+    else:
+        only_gate = ("quat", "w") in allt
+        res.bad(rule, key, rel, line,
+                f"the Jacobian axis (field J of the row) {fname} builds depends on the vector part of the joint quaternion but "
+                f"not on its scalar part" + (" (the scalar part only reaches the 0/1 activity factor)" if only_gate else "") +
+                f"; the C engine ({prem['function']}, {CC_C}:{prem['calls'][0][0]}) derives the axis from all four components: "
+                f"{COVER_WHY}")
+    res.extra["cover"] = {"mjx_function": fname, "c_function": prem["function"], "why": COVER_WHY,
+                          "mjx_J_direction_depends_on": sorted(str(t) for t in direct if t[0] == "quat"),
+                          "mjx_J_also_gated_by": sorted(str(t) for t in allt - direct if t[0] == "quat")}
+
+
+# --------------------------------------------------------------------------------------
+# self-test (thorough tier): must-fire mutants and behaviour-preserving controls for R-XLANG-FEED / R-XLANG-COVER
+
+_FW = f"{MJX}/forward.py"
+_CO = f"{MJX}/constraint.py"
+_RK_ADVANCE = "  d = _advance(m, d, act_dot, qacc, qvel)\n  return d\n"
+_BALL_NORM = "    axis, angle = math.normalize_with_norm(axis * angle)\n"
+_SEED_BALL = [(_CO, _BALL_NORM, ""),
+              (_CO, "    pos = jp.amax(jnt_range) - angle - jnt_margin\n    active = pos < 0\n    j = jp.zeros(m.nv).at[jp.arange(3) + dofadr].set(-axis)",
+               "    pos = jp.amax(jnt_range) - jp.abs(angle) - jnt_margin\n    active = pos < 0\n    j = jp.zeros(m.nv).at[jp.arange(3) + dofadr].set(-axis)")]
+MUTANTS = [
+    # R-XLANG-FEED: the activation update inside an RK stage (stored seed C43-rk4-stage-activation)
+    {"id": "feed-rk-stage-clamp", "expect": ("R-XLANG-FEED", "rungekutta4:_next_activation->forward"),
+     "edits": [(_FW, "    kact = d0.act + dact_dot * m.opt.timestep\n", "    kact = _next_activation(m, d0, dact_dot)\n")]},
+    # the same through a helper and a partial application: the owner is still the integrator
+    {"id": "feed-rk-stage-clamp-helper", "expect": ("R-XLANG-FEED", "_next_activation->forward"),
+     "edits": [(_FW, "    kact = d0.act + dact_dot * m.opt.timestep\n",
+                "    stage_act = functools.partial(_next_activation, m, d0)\n    kact = stage_act(dact_dot)\n")]},
+    # the final state keeps the unclamped Euler activation although the clamped one is computed
+    {"id": "feed-final-act-unclamped", "expect": ("R-XLANG-FEED", "act<-_next_activation"),
+     "edits": [(_FW, "  act = _next_activation(m, d, act_dot)\n",
+                "  act = _next_activation(m, d, act_dot)\n  act = d.act + act_dot * m.opt.timestep\n")]},
+    # positions of the returned state advanced linearly (the manifold integrator is called, its result dropped)
+    {"id": "feed-final-qpos-linear", "expect": ("R-XLANG-FEED", "qpos<-_integrate_pos"),
+     "edits": [(_FW, "  return d.replace(act=act, qpos=qpos, time=time)\n",
+                "  return d.replace(act=act, qpos=d.qpos, time=time)\n")]},
+    # a second dynamics evaluation after the advance inside the Euler step: C never evaluates after mj_nextActivation
+    {"id": "feed-euler-eval-after-advance", "expect": ("R-XLANG-FEED", "_next_activation->forward"),
+     "edits": [(_FW, "    d = euler(m, d)\n", "    d = forward(m, euler(m, d))\n")]},
+    # controls: behaviour-preserving reshapes of the same code
+    {"id": "feed-ctl-inline-advance", "expect": None,
+     "edits": [(_FW, _RK_ADVANCE,
+                "  act = _next_activation(m, d, act_dot)\n  d = d.replace(qvel=d.qvel + qacc * m.opt.timestep)\n"
+                "  qpos = scan.flat(m, integrate_fn, 'jqv', 'q', m.jnt_type, d.qpos, qvel)\n"
+                "  d = d.replace(qacc_warmstart=d.qacc)\n"
+                "  return d.replace(act=act, qpos=qpos, time=d.time + m.opt.timestep)\n")]},
+    {"id": "feed-ctl-python-loop", "expect": None,
+     "edits": [(_FW, "  out, _ = jax.lax.scan(f, (qvel, qacc, act_dot, kqvel, d), abt, unroll=3)\n",
+                "  out = (qvel, qacc, act_dot, kqvel, d)\n  for i in range(3):\n    out, _ = f(out, abt[i])\n")]},
+    {"id": "feed-ctl-stage-helper", "expect": None,
+     "edits": [(_FW, "    kact = d0.act + dact_dot * m.opt.timestep\n    kqvel = d0.qvel + dqacc * m.opt.timestep\n",
+                "    lin = lambda x0, dx: x0 + dx * m.opt.timestep\n    kact, kqvel = lin(d0.act, dact_dot), lin(d0.qvel, dqacc)\n")]},
+    {"id": "feed-ctl-dispatch-table", "expect": None,
+     "edits": [(_FW, "  if m.opt.integrator == IntegratorType.EULER:\n    d = euler(m, d)\n  elif m.opt.integrator == IntegratorType.RK4:\n"
+                     "    d = rungekutta4(m, d)\n  elif m.opt.integrator == IntegratorType.IMPLICITFAST:\n    d = implicit(m, d)\n  else:\n",
+                "  table = {IntegratorType.EULER: euler, IntegratorType.RK4: rungekutta4, IntegratorType.IMPLICITFAST: implicit}\n"
+                "  if m.opt.integrator in table:\n    d = table[m.opt.integrator](m, d)\n  else:\n")]},
+    {"id": "feed-ctl-c-local-integrator", "expect": None,
+     "edits": [(FWD_C, "  switch ((mjtIntegrator) m->opt.integrator) {\n  case mjINT_EULER:\n    mj_Euler(m, d);",
+                "  int integ = m->opt.integrator;\n  switch ((mjtIntegrator) integ) {\n  case mjINT_EULER:\n    mj_Euler(m, d);")]},
+    {"id": "feed-ctl-c-stage-helper", "expect": None,
+     "edits": [(FWD_C, "// Runge Kutta explicit order-N integrator\n",
+                "static void rkEvaluate(const mjModel* m, mjData* d) {\n  mj_forwardSkip(m, d, mjSTAGE_NONE, 1);\n}\n\n"
+                "// Runge Kutta explicit order-N integrator\n"),
+               (FWD_C, "    mj_forwardSkip(m, d, mjSTAGE_NONE, 1);  // 1: do not recompute sensors and energy\n",
+                "    rkEvaluate(m, d);\n")]},
+    # R-XLANG-COVER: the renormalisation of axis*angle dropped (stored seed C43-ball-limit-double-cover)
+    {"id": "cover-ball-no-renormalise", "expect": ("R-XLANG-COVER", "_efc_limit_ball:J<-qpos.w"), "edits": _SEED_BALL},
+    # the same with the activity factor applied through where(active, j, 0)
+    {"id": "cover-ball-no-renormalise-where", "expect": ("R-XLANG-COVER", "_efc_limit_ball:J<-qpos.w"),
+     "edits": _SEED_BALL + [(_CO, "        j * active, pos * active, pos, invweight, solref, solimp, jnt_margin, z\n    )\n\n"
+                                  "  args = (m.jnt_qposadr, m.jnt_dofadr, m.jnt_range, m.jnt_margin, m.jnt_solref)\n  args += (m.jnt_solimp,)\n"
+                                  "  args = jax.tree_util.tree_map(lambda x: x[jnt_id], args)\n\n  return rows(*args)\n\n\n"
+                                  "def _efc_limit_slide_hinge",
+                             "        jp.where(active, j, 0.0), pos * active, pos, invweight, solref, solimp, jnt_margin, z\n    )\n\n"
+                             "  args = (m.jnt_qposadr, m.jnt_dofadr, m.jnt_range, m.jnt_margin, m.jnt_solref)\n  args += (m.jnt_solimp,)\n"
+                             "  args = jax.tree_util.tree_map(lambda x: x[jnt_id], args)\n\n  return rows(*args)\n\n\n"
+                             "def _efc_limit_slide_hinge")]},
+    # controls: equivalent ways of putting the axis on the right half of the cover
+    {"id": "cover-ctl-sign", "expect": None,
+     "edits": [(_CO, _BALL_NORM, "    axis, angle = axis * jp.sign(angle), jp.abs(angle)\n")]},
+    {"id": "cover-ctl-where", "expect": None,
+     "edits": [(_CO, _BALL_NORM, "    axis = jp.where(angle < 0, -axis, axis)\n    angle = jp.abs(angle)\n")]},
+    {"id": "cover-ctl-sign-from-mask", "expect": None,
+     "edits": [(_CO, _BALL_NORM, "    axis, angle = axis * (1 - 2 * (angle < 0)), jp.abs(angle)\n")]},
+    {"id": "cover-ctl-canonical-quat", "expect": None,
+     "edits": [(_CO, "    axis, angle = math.quat_to_axis_angle(d.qpos[jp.arange(4) + qposadr])\n" + "    # ball rotation angle is always positive\n" + _BALL_NORM,
+                "    quat = jax.lax.dynamic_slice(d.qpos, (qposadr,), (4,))\n    quat = jp.where(quat[0] < 0, -quat, quat)\n"
+                "    axis, angle = math.quat_to_axis_angle(quat)\n")]},
+    {"id": "cover-ctl-c-helper", "expect": None,
+     "edits": [(CC_C, "// joint and tendon limits\n",
+                "static mjtNum ballAngleAxis(mjtNum angleAxis[3], const mjtNum* qpos) {\n  mjtNum quat[4] = {qpos[0], qpos[1], qpos[2], qpos[3]};\n"
+                "  mju_normalize4(quat);\n  mju_quat2Vel(angleAxis, quat, 1);\n  return mju_normalize3(angleAxis);\n}\n\n// joint and tendon limits\n"),
+               (CC_C, "      mjtNum quat[4] = {d->qpos[adr], d->qpos[adr+1], d->qpos[adr+2], d->qpos[adr+3]};\n      mju_normalize4(quat);\n"
+                      "      mju_quat2Vel(angleAxis, quat, 1);\n\n      // get rotation angle, normalize\n      value = mju_normalize3(angleAxis);\n",
+                "      value = ballAngleAxis(angleAxis, d->qpos + adr);\n")]},
+]
+SELFTEST_PARTS = ("mjx/mujoco", "src", "include", "cmake", "CMakeLists.txt", "python/mujoco", "plugin")
+
+
+def selftest(res):
+    from .. import r_misc
+    r_misc.run_mutants("C43", res, MUTANTS, parts=SELFTEST_PARTS, jobs=3)
+
+
+# --------------------------------------------------------------------------------------
 
 
 def run(res, tier):
@@ -998,6 +2078,8 @@ def run(res, tier):
              "io.py names a member of the C struct (or a derived field assigned in the same function)", floor=900)
     n_explicit, n_copy, foreign = check_attrs(res, H, sources, classes)
     check_stages(res, H, sources, classes, repo)
+    check_feed(res, H, sources, classes, mir, repo)
+    check_cover(res, H, sources, classes, repo)
     res.count("mjx_files", len(sources))
     res.count("mirror_classes", len(mir))
     res.count("partial_mirrors", sum(1 for m in mir.values() if m["partial"]))
@@ -1015,10 +2097,22 @@ def run(res, tier):
         "every mirror that omits C values is gated by a NotImplementedError membership test reachable from the JAX "
         "put_model path (gate rows checked for coherence); attribute reads and getattr copy loops on C objects in io.py "
         "name C struct members; the sensor types each MJX stage function handles are exactly those the C compiler assigns "
-        "to that stage (sensorNeedstage, type-checked by clang).")
+        "to that stage (sensorNeedstage, type-checked by clang); inside one step and inside each integrator a result of the "
+        "activation update / position integration / dynamics evaluation feeds another of them in MJX only if the C engine "
+        "can call them in that order, and the act / qpos of the returned state come from the primitives that produce "
+        "d->act / d->qpos in C (R-XLANG-FEED); the ball-limit Jacobian axis depends on the quaternion's scalar part on "
+        "both sides (R-XLANG-COVER).")
     res.not_decided = ("numerical agreement of forward dynamics/step with the C engine; semantics of each gate beyond "
                        "membership (e.g. feature combinations such as implicitfast+fluid, contact sensor modes); Warp and "
                        "C++ back ends (copy loops over classes defined outside types.py are listed, not decided); "
-                       "GeomType and DisableBit are covered by the documented alternative arguments in gate_exceptions.")
-    res.assumptions = ["parameters annotated mujoco.MjModel/MjData/MjOption/MjStatistic hold those binding objects",
+                       "GeomType and DisableBit are covered by the documented alternative arguments in gate_exceptions.  "
+                       "R-XLANG-FEED: explicit data flow only; C feeds without an MJX counterpart (other than the produced "
+                       "act / qpos) are not demanded; feeds through unknown combinators' feedback are listed, not judged; "
+                       "what the primitives compute is not compared.  R-XLANG-COVER: one row kind (ball limit); masks it "
+                       "does not recognise keep their dependences (a miss, never a false alarm).")
+    res.assumptions = ["x.replace(f=v) / tree_replace on MJX dataclasses return a copy with the named fields replaced; "
+                       "decorators named_scope / jax.vmap / jax.jit preserve data flow",
+                       "user callbacks and plugin hooks of the C engine do not call mj_forward / mj_nextActivation / "
+                       "mj_integratePos",
+                       "parameters annotated mujoco.MjModel/MjData/MjOption/MjStatistic hold those binding objects",
                        "IntEnum(value)/set(Enum) membership semantics of CPython's enum module"]
